@@ -11,6 +11,7 @@ from .c04 import PL2, PL3, place
 
 PROPERTY = "C06"
 ENGINE = "E2"
+TECHNIQUE = "bounded-exhaustive enumeration of polygons/circles/ellipses x placements x complete in-plane query lattices with exact membership oracles"
 RULE = (
     "cases = simple lattice polygon of P2(n,4) (both orientations, every 2nd cyclic start) x normal in {default,+n,-n} x placement "
     "(3-D group G or in-plane) for Polygon and, on the convex subset, ConvexPolygon; circles and ellipses over CURV axes (a<b, "
